@@ -380,7 +380,7 @@ def run_shard(shard, tier, seed, rec):
             shutil.rmtree(fx, ignore_errors=True)
     else:
         i = shard["i"]
-        n = {"quick": 25, "thorough": 900}[tier]
+        n = {"quick": 60, "thorough": 900}[tier]
         cls_name = "IH5Record" if i % 2 == 0 else "IH5MFRecord"
         strat = H.histories(3, 25 if tier == "quick" else 50, boundary_weight=2).map(lambda h: dict(history=h, cls=cls_name))
         hyp.search(strat, lambda c: run_history_case(c, rec, tier), rec, seed=seed * 1000 + i, max_examples=n)
